@@ -147,6 +147,16 @@ def depguard(F, rep, gc):
                     pcs = fmt_pieces(raw) if raw else None
                     if pcs and "=" in "".join(pcs):
                         txt = "".join(pcs)       # format!("name = {{ .. }}", ..) template
+            # the line may be rendered by a helper of the same file (`deps.push(stdlib_dependency_line(..))`)
+            if not txt:
+                for _, ct in calls:
+                    cn = callee_name(ct) or ""
+                    h = F.fns.get(cn)
+                    if h is not None and h.file == gc.file:
+                        from engines import fn_fmt_templates, all_string_constants
+                        for v in fn_fmt_templates(h) + [x for _, x in all_string_constants(h)]:
+                            if v and "=" in v and not v.strip().startswith("#"):
+                                txt = v
         if txt:
             pushes.append((bi, t, txt))
     rep.floor("DEPGUARD", "fixed dependency lines pushed in generate_cargo_toml", len(pushes), 4)
@@ -396,6 +406,13 @@ def scanners(F, rep):
     if rep.anchor("SCANNERS", "scanners::program_uses_json_stringify", pj):
         DECL = AST + "Declaration"
         sw = primary_dispatch(pj, DECL)
+        if sw is None:
+            # `declarations.iter().any(|d| match &d.node { .. })`: the match lives in a closure of the function
+            for q in body_and_closures(F, pj.path):
+                sw = primary_dispatch(F.fns[q], DECL)
+                if sw is not None:
+                    pj = F.fns[q]
+                    break
         if rep.anchor("SCANNERS", "match over Declaration in program_uses_json_stringify", sw):
             for var in F.adts[DECL]["variants"]:
                 v = var["name"]
